@@ -1,5 +1,398 @@
+"""C02 (a) - all optimisation levels agree (program level).
+
+Every program of a bounded generated space and of the repository corpus is
+compiled at O0, O1, O2, O3 (without -g) and at O0..O3 with -g, and every
+accepted module is run under every script of the program's menu.  Oracle: the
+O0 build of the same -g group - same verdict (accepted / the same located
+diagnostic), same device events, same end, same trap, and (in the -g group,
+where the machine can name it) the same source line of the failing statement.
+
+The generated space is built around what the two optimisation stages rewrite:
+constant sub-expressions (AST fold), push+conv / push+unary / push+push+binary,
+read/store pairs, jump pairs, push+jz, code after halt (peephole) - each as a
+statement `atom`, alone, in pairs (triples in the thorough tier) and inside
+every block construct (`wrapper`).
+"""
+import itertools
+
+from . import impl, corpus
+
+LEVELS = (0, 1, 2, 3)
+HORIZON = 60000
+
+# ---------------------------------------------------------------------------
+# atoms: name -> list of source lines; {n} is replaced by the atom's position
+# so that labels and declared names stay unique within one program
+
+ATOMS = {
+    # constant folding in expressions
+    'Pint': ['PRINT 2 + 3 * 4'],
+    'Pmix': ['PRINT 7 / 2; 7 \\ 2; 7 MOD 4; 2 ^ 3'],
+    'Pstr': ['PRINT "a" + "b"; "a" < "b"'],
+    'Pcmp': ['PRINT 2 < 3; 1.5 = 1.5#; NOT 0'],
+    'Pneg': ['PRINT -a%; -2; - -2; NOT a%'],
+    'Pvar': ['PRINT a%; b&; s$'],
+    # assignments: read/store pair, conversions of literals, mixed folding
+    'Aself': ['a% = a%'],
+    'Ainc': ['a% = a% + 1'],
+    'Acx': ['a% = 2 * 3 + a%'],
+    'Arnd': ['a% = 2.5 : b& = 3.5'],
+    'Along': ['b& = 70000 * 2'],
+    'Asng': ['x! = 1 / 3 : PRINT x!'],
+    'Adbl': ['d# = 0.1 : PRINT d#; 0.1 * 3'],
+    'Astr': ['s$ = s$ + "x" + "y"'],
+    # statements that fail at run time (the fold / peephole must leave them)
+    'Xovf': ['a% = 20000 * 2'],
+    'Xconv': ['a% = 40000'],
+    'Xdiv': ['PRINT 5 \\ 0'],
+    # compile-time names
+    'Cnum': ['CONST c{n} = 2 * 3 : PRINT c{n}; c{n} * 2'],
+    'Cstr': ['CONST t{n} = "q" : PRINT t{n} + "r"'],
+    'Ddim': ['DIM r{n}(1 TO 1 + 2) AS INTEGER : r{n}(3) = 1 + 1 : PRINT r{n}(3); UBOUND(r{n})'],
+    'Dcon': ['CONST n{n} = 4 : DIM q{n}(n{n}) AS LONG : q{n}(n{n}) = n{n} : PRINT q{n}(4)'],
+    # environment
+    'Iin': ['INPUT a%'],
+    # constant and variable conditions (push + jz)
+    'If0': ['IF 0 THEN PRINT 71'],
+    'If1': ['IF 1 THEN PRINT 72 ELSE PRINT 73'],
+    'Ifx': ['IF 2 - 2 THEN PRINT 74 ELSE PRINT 75'],
+    'Ifv': ['IF a% THEN PRINT 76 ELSE PRINT 77'],
+    'Ifl': ['IF 1& THEN PRINT 78'],
+    'Iff': ['IF 0.4 THEN PRINT 79 ELSE PRINT 80'],
+    # halting
+    'End': ['END'],
+    'Ifend': ['IF a% = 1 THEN END'],
+    # jumps
+    'Jskip': ['GOTO m{n}', 'PRINT 91', 'm{n}:'],
+    'Jchain': ['GOTO u{n}', 'v{n}: PRINT 92', 'GOTO w{n}', 'u{n}: GOTO v{n}', 'w{n}:'],
+    'Jgosub': ['GOSUB g{n}', 'GOTO e{n}', 'g{n}: PRINT 93', 'RETURN', 'e{n}:'],
+    # blocks with constant parts
+    'Bwh0': ['WHILE 0', 'PRINT 94', 'WEND'],
+    'Bsel': ['SELECT CASE a%', 'CASE 0 + 0', 'PRINT 95', 'CASE 1 TO 1 + 1', 'PRINT 96', 'END SELECT'],
+    'Bfor': ['FOR k{n}% = 1 + 0 TO 2 * 1 STEP 1', 'PRINT k{n}%', 'NEXT'],
+    'Bdo': ['DO', 'a% = a% + 1', 'LOOP WHILE a% < 2 AND 1'],
+}
+ALL = list(ATOMS)
+CORE = ['Pint', 'Pvar', 'Aself', 'Ainc', 'Arnd', 'Xovf', 'Cnum', 'If0', 'If1', 'End', 'Jskip', 'Jchain']
+CORE_T = CORE + ['Pstr', 'Adbl', 'Xconv', 'Ddim', 'Iin', 'Ifv', 'Jgosub', 'Bsel']
+
+# wrappers: name -> (lines before body, lines after body, lines appended after the main program)
+WRAPPERS = {
+    'top': ([], [], []),
+    'if1': (['IF 1 THEN'], ['END IF'], []),
+    'if0else': (['IF 0 THEN', 'PRINT 81', 'ELSE'], ['END IF'], []),
+    'ifv': (['IF a% = 0 THEN'], ['ELSE', 'PRINT 82', 'END IF'], []),
+    'while': (['WHILE z% < 2'], ['z% = z% + 1', 'WEND'], []),
+    'dountil1': (['DO'], ['LOOP UNTIL 1'], []),
+    'dowhile0': (['DO WHILE 0'], ['LOOP'], []),
+    'for': (['FOR i% = 1 TO 2'], ['NEXT'], []),
+    'forempty': (['FOR i% = 2 TO 1'], ['NEXT i%'], []),
+    'select': (['SELECT CASE 1 + 1', 'CASE 1', 'PRINT 83', 'CASE 2'], ['CASE ELSE', 'PRINT 84', 'END SELECT'], []),
+    'sub': (['CALL p1'], [], ['SUB p1', '@', 'END SUB']),
+    'subexit': (['p2'], [], ['SUB p2', '@', 'EXIT SUB', 'PRINT 85', 'END SUB']),
+    'func': (['PRINT f1%'], [], ['FUNCTION f1%', '@', 'f1% = 1 + 1', 'END FUNCTION']),
+    'gosub': (['GOSUB r1', 'PRINT 86', 'END', 'r1:'], ['RETURN'], []),
+    'onerror': (['ON ERROR GOTO h1'], ['PRINT 87', 'END', 'h1: PRINT "E"; ERR', 'RESUME NEXT'], []),
+}
+WRAP = [w for w in WRAPPERS if w != 'top']
+
+SCRIPTS_INPUT = [{'input': ['0']}, {'input': ['1']}, {'input': ['3']}]
+
+
+def render(desc):
+    """desc = (wrapper names outermost first, atom names) -> source text"""
+    wraps, atoms = desc
+    body = []
+    for i, a in enumerate(atoms):
+        body += [l.replace('{n}', str(i + 1)) for l in ATOMS[a]]
+    tail = []
+    for w in reversed(wraps):
+        pre, post, after = WRAPPERS[w]
+        if after:
+            tail = [x for l in after for x in (body if l == '@' else [l])] + tail
+            body = list(pre) + list(post)
+        else:
+            body = list(pre) + body + list(post)
+    lines = body + ['PRINT a%; z%'] + (['END'] + tail if tail else [])
+    return '\n'.join(lines)
+
+
+def gen_descs(tier):
+    out = []
+    for a in ALL:
+        out.append((('top',), (a,)))
+    for a in ALL:
+        for b in ALL:
+            out.append((('top',), (a, b)))
+    for w in WRAP:
+        for a in ALL:
+            out.append(((w,), (a,)))
+    core = CORE if tier == 'quick' else CORE_T
+    for w in WRAP:
+        for a in core:
+            for b in core:
+                out.append(((w,), (a, b)))
+    if tier == 'thorough':
+        for t in itertools.product(ALL, repeat=3):
+            out.append((('top',), t))
+        for w1 in WRAP:
+            for w2 in WRAP:
+                if w1 in ('sub', 'subexit', 'func') and w2 in ('sub', 'subexit', 'func'):
+                    continue   # a routine cannot be declared inside a routine
+                if w1 == w2 and w1 in ('gosub', 'onerror'):
+                    continue   # the wrapper's own labels would be declared twice
+                for a in ALL:
+                    out.append(((w1, w2), (a,)))
+    return out
+
+
+def scripts_for(src):
+    if 'INPUT ' in src:
+        return SCRIPTS_INPUT
+    return [None]
+
+
+# ---------------------------------------------------------------------------
+# evaluation
+
+def _verdict(r):
+    if r.ok:
+        return ('ok',)
+    if r.kind in ('syntax', 'compile'):
+        return (r.kind, r.err_code, r.loc)
+    return (r.kind, r.exc)
+
+
+def _obs(out, dbg):
+    o = {'end': out.end, 'trap': out.trap, 'exc': out.exc, 'events': impl.jsonable(out.events)}
+    if dbg:
+        o['line'] = out.line
+    return o
+
+
+def judge(src, scripts, on_empty=None, horizon=HORIZON, levels=LEVELS, groups=(False, True)):
+    """-> (list of (divergence, dbg, level, script index, expected, observed), info)"""
+    bad = []
+    info = {'accepted': False, 'rejected': False, 'compiles': 0, 'runs': 0, 'code_differs': [],
+            'o3_equals_o2': None, 'horizon': 0, 'outcomes': set(), 'crash': False}
+    for dbg in groups:
+        res = {}
+        for o in levels:
+            res[o] = impl.compile_text(src, o, dbg, want_listing=False)
+            if res[o].kind == 'timeout':    # confirm with a generous limit (loaded machine)
+                res[o] = impl.compile_text(src, o, dbg, limit=60.0, want_listing=False)
+            info['compiles'] += 1
+        base = res[levels[0]]
+        v0 = _verdict(base)
+        for o in levels[1:]:
+            r = res[o]
+            if _verdict(r) != v0:
+                div = 'compiler-crash' if r.kind in ('crash', 'timeout') else 'verdict'
+                bad.append((div, dbg, o, None, base.brief(), r.brief()))
+        if base.kind in ('crash', 'timeout'):
+            # the compiler dies at O0 already: C06's business; here only the
+            # agreement of the levels (checked above) matters
+            info['crash'] = True
+            continue
+        if not base.ok:
+            info['rejected'] = True
+            continue
+        info['accepted'] = True
+        if not dbg:
+            c0 = impl.split_sections(base.binary).get(4)
+            for o in levels[1:]:
+                if res[o].ok and impl.split_sections(res[o].binary).get(4) != c0:
+                    info['code_differs'].append(o)
+            if 2 in res and 3 in res and res[2].ok and res[3].ok:
+                info['o3_equals_o2'] = res[2].binary == res[3].binary
+        mods = {}
+        for o in levels:
+            if res[o].ok:
+                try:
+                    mods[o] = impl.load(res[o].binary)
+                except Exception as e:
+                    bad.append(('module-rejected-by-loader', dbg, o, None, None, str(e)[:120]))
+        if levels[0] not in mods:
+            continue
+        for si, script in enumerate(scripts):
+            outs = {}
+            for o, m in mods.items():
+                env = impl.Env(script, on_empty=on_empty)
+                outs[o], _ = impl.run_module(m, env, horizon=horizon)
+                info['runs'] += 1
+            o0 = outs[levels[0]]
+            info['outcomes'].add((o0.end, o0.trap))
+            if any(x.end == 'horizon' for x in outs.values()):
+                # cut runs are not comparable event by event (levels need different tick counts)
+                info['horizon'] += 1
+                if not all(x.end == 'horizon' for x in outs.values()):
+                    # give every level eight times the budget before calling it a difference
+                    for o, m in mods.items():
+                        outs[o], _ = impl.run_module(m, impl.Env(script, on_empty=on_empty), horizon=8 * horizon)
+                    o0 = outs[levels[0]]
+                    if any(x.end == 'horizon' for x in outs.values()):
+                        if not all(x.end == 'horizon' for x in outs.values()):
+                            bad.append(('termination', dbg, 0, si, None,
+                                        {f'O{o}': x.end for o, x in outs.items()}))
+                        continue
+                else:
+                    continue
+            e0 = _obs(o0, dbg)
+            for o in levels[1:]:
+                if o not in outs:
+                    continue
+                e = _obs(outs[o], dbg)
+                if e == e0:
+                    continue
+                if (e['end'], e['trap'], e['exc']) != (e0['end'], e0['trap'], e0['exc']):
+                    div = 'outcome'
+                elif e['events'] != e0['events']:
+                    div = 'events'
+                else:
+                    div = 'error-line'
+                bad.append((div, dbg, o, si, e0, e))
+    return bad, info
+
+
+def new_stats():
+    return {'lv_evaluations': 0, 'lv_nontrivial': 0, 'lv_programs': 0, 'lv_compiles': 0, 'lv_runs': 0,
+            'lv_accepted': 0, 'lv_rejected': 0, 'lv_code_differs_O1': 0, 'lv_code_differs_O2': 0,
+            'lv_code_differs_O3': 0, 'lv_o3_identical_to_o2': 0, 'lv_o3_differs_from_o2': 0,
+            'lv_horizon': 0, 'lv_compiler_dies_at_O0': 0, 'lv_outcomes': set(), 'lv_per_family': {}}
+
+
+def worker(chunk):
+    impl.parse_cache(True)
+    viol = []
+    st = new_stats()
+    for item in chunk:
+        fam = item[0]
+        if fam == 'corpus':
+            _, src, script, feat = item
+            scripts = [script]
+            horizon = 200000
+        else:
+            _, wraps, atoms = item
+            src = render((wraps, atoms))
+            scripts = scripts_for(src)
+            feat = {'wrappers': '/'.join(wraps), 'atoms': ' '.join(atoms)}
+            horizon = HORIZON
+        bad, info = judge(src, scripts, horizon=horizon)
+        st['lv_programs'] += 1
+        st['lv_evaluations'] += len(scripts)
+        st['lv_compiles'] += info['compiles']
+        st['lv_runs'] += info['runs']
+        st['lv_per_family'][fam] = st['lv_per_family'].get(fam, 0) + 1
+        st['lv_accepted'] += bool(info['accepted'])
+        st['lv_rejected'] += bool(info['rejected'])
+        for o in info['code_differs']:
+            st[f'lv_code_differs_O{o}'] += 1
+        if info['code_differs']:
+            st['lv_nontrivial'] += 1
+        if info['o3_equals_o2'] is True:
+            st['lv_o3_identical_to_o2'] += 1
+        elif info['o3_equals_o2'] is False:
+            st['lv_o3_differs_from_o2'] += 1
+        st['lv_horizon'] += info['horizon']
+        st['lv_compiler_dies_at_O0'] += bool(info['crash'])
+        st['lv_outcomes'] |= {(fam,) + tuple(x) for x in info['outcomes']}
+        by = {}
+        for div, dbg, o, si, exp, obs in bad:
+            by.setdefault((div, dbg), []).append((o, si, exp, obs))
+        for (div, dbg), lst in by.items():
+            f = {'family': 'levels', 'divergence': div, 'source': fam, 'g': bool(dbg),
+                 'levels': ','.join(f'O{o}' for o in sorted(set(x[0] for x in lst)))}
+            f.update(feat)
+            o, si, exp, obs = lst[0]
+            case = {'kind': 'levels', 'src': src, 'scripts': scripts, 'horizon': horizon,
+                    'script_index': si, 'level': o, 'g': bool(dbg)}
+            viol.append((f, case, exp, obs, len(src)))
+    return viol, st
+
+
+def conformance_slice(n=10):
+    """the per-line parse memo must not change what the compiler produces:
+    compile n corpus programs with and without it -> number of differences"""
+    cs = [c for c in corpus.cases() if c['expected'] in ('success', 'trap')][:n]
+    diff = 0
+
+    def essence(r):
+        # the debug section is a pickle whose bytes depend on object sharing;
+        # compare the other sections byte by byte and the statement table by content
+        if not r.ok:
+            return (r.kind, r.err_code, r.loc)
+        sec = impl.split_sections(r.binary)
+        di = impl.load(r.binary).debug_info
+        return (r.kind, [sec.get(i) for i in (1, 2, 3, 4)],
+                [(x.source_start_line, x.start_offset, x.end_offset) for x in di.stmts])
+
+    for c in cs:
+        impl.parse_cache(False)
+        a = essence(impl.compile_text(c['src'], 2, True, want_listing=False))
+        impl.parse_cache(True)
+        b = essence(impl.compile_text(c['src'], 2, True, want_listing=False))
+        b2 = essence(impl.compile_text(c['src'], 2, True, want_listing=False))
+        if a != b or a != b2:
+            diff += 1
+    impl.parse_cache(False)
+    return len(cs), diff
+
+
 def run(chk):
-    return {}
+    descs = gen_descs(chk.tier)
+    items = [('gen', list(w), list(a)) for w, a in descs]
+    cs = []
+    for c in corpus.cases():
+        cs.append(('corpus', c['src'], corpus.script_of(c),
+                   {'file': c['file'], 'idx': c['idx']}))
+    for part, chunk in ((items, 40), (cs, 6)):
+        for viol, st in chk.pmap(worker, part, chunk=chunk):
+            chk.add_violations(viol)
+            chk.merge_stats(st)
+    n, diff = conformance_slice()
+    chk.cov['lv_parse_memo_conformance'] = {'programs': n, 'differences': diff}
+    if diff:
+        chk.add_violations([({'family': 'levels', 'divergence': 'harness-parse-memo'},
+                             {'kind': 'levels', 'src': '', 'scripts': [None]}, 'identical modules',
+                             f'{diff} of {n} differ', 0)])
+    for d in (descs[3], descs[len(descs) // 2], descs[-1]):
+        chk.sample({'family': 'levels', 'wrappers': list(d[0]), 'atoms': list(d[1]), 'src': render(d)[:500]})
+    return {'generated_programs': len(items), 'corpus_programs': len(cs),
+            'atoms': {k: ' / '.join(v) for k, v in ATOMS.items()},
+            'core_atoms': CORE if chk.tier == 'quick' else CORE_T,
+            'wrappers': {k: {'before': v[0], 'after': v[1], 'routine': v[2]} for k, v in WRAPPERS.items()},
+            'shapes': ('top level: all sequences of 1 and 2 atoms; every wrapper x every atom; every wrapper x '
+                       'all pairs of core atoms'
+                       + ('; top level: all sequences of 3 atoms; every wrapper inside every wrapper x every atom'
+                          if chk.tier == 'thorough' else '')),
+            'configs': 'O0 O1 O2 O3 without -g (oracle O0) and O0 O1 O2 O3 with -g (oracle O0 -g)',
+            'scripts': 'programs with INPUT: the lines "0", "1", "3"; corpus: its own INKEY$/RND/TIMER lists',
+            'horizon_ticks': HORIZON}
+
 
 def replay(rec):
-    return 0
+    case = rec['case']
+    src = case['src']
+    print('--- source ---')
+    print(src)
+    scripts = case.get('scripts') or [None]
+    print('--- scripts ---')
+    print(scripts)
+    impl.parse_cache(False)
+    with impl.quiet():
+        bad, info = judge(src, scripts, horizon=case.get('horizon', HORIZON))
+        rows = []
+        for dbg in (False, True):
+            for o in LEVELS:
+                r = impl.compile_text(src, o, dbg)
+                line = f'O{o}{" -g" if dbg else ""}: {r.brief()}'
+                if r.ok:
+                    for s in scripts:
+                        out, _ = impl.run_module(impl.load(r.binary), impl.Env(s), horizon=case.get('horizon', HORIZON))
+                        line += f'\n      -> {out.end} {out.trap or ""} line={out.line} events={impl.jsonable(out.events)[-6:]}'
+                rows.append(line)
+    for l in rows:
+        print(l)
+    for b in bad:
+        print('DIFFERS:', b)
+    return 1 if bad else 0
